@@ -10,7 +10,7 @@ T <id> <table>            remember the table                          → T <id>
 B <id> <hex>              bytes the real writer produced for table id → A <id> <decoded> <store-equal> <bytes-equal>
 V <id> <single> <mode>    encode a variant of table id                → V <id> <hex> | <model read-back dump>
 F <name> <hex>            any bytes: decode + readCore (code as is)   → F <name> undecodable | unmodelled | err <site> | ok <dump>
-R <name> <hex>            any bytes: decode + repaired reader         → R <name> undecodable | unmodelled | err <site> | ok <wf> <dump>
+R <name> <hex>            any bytes: decode + repaired reader         → R <name> undecodable | unmodelled | err <site> <cleanup> old=<verdict of the unrepaired reader> | ok <wf> old=.. | <dump>
 P                         → the reserved-prefix table of the model
 ```
 Table syntax: `nd order*nd naxes*nd strides*nd (nk knot*nk)*nd ncoef coef* hasExt ext* hasPer per* naux (hkey hval)*`
@@ -72,7 +72,21 @@ def parseD (s : Str) : Option UInt64 :=
       let x := Float.ofScientific m true fp.length
       some (if neg then (-x).toBits else x.toBits)
 
-def ext : Ext := ⟨fmtD, parseD, fun b => (Float.ofBits b).toFloat32.toBits, fun b => (Float32.ofBits b).toFloat.toBits⟩
+/-- `(float) d` as SSE does it; NaN handled on the bits (sign kept, quiet bit set, payload truncated) because
+    `Float32.toBits` canonicalises NaNs -/
+def d2f (b : UInt64) : UInt32 :=
+  let n := b.toNat
+  if n / 4503599627370496 % 2048 = 2047 ∧ n % 4503599627370496 ≠ 0 then
+    UInt32.ofNat ((n / 9223372036854775808) * 2147483648 + 2143289344 + (n % 2251799813685248) / 536870912)
+  else (Float.ofBits b).toFloat32.toBits
+
+def f2d (b : UInt32) : UInt64 :=
+  let n := b.toNat
+  if n / 8388608 % 256 = 255 ∧ n % 8388608 ≠ 0 then
+    UInt64.ofNat ((n / 2147483648) * 9223372036854775808 + 9221120237041090560 + (n % 4194304) * 536870912)
+  else (Float32.ofBits b).toFloat.toBits
+
+def ext : Ext := ⟨fmtD, parseD, d2f, f2d⟩
 
 /-! parsing / printing tables -/
 
@@ -179,7 +193,7 @@ def handle (tabs : Option Table) (ws : List String) : Option Table × String :=
     match tabs, single.toNat?, mode.toNat? with
     | some t, some s, some m =>
       let f := variant t (s = 1) m
-      (tabs, s!"V {id} {hex (encodeFits f)} | {showRead (readCore ext f)}")
+      (tabs, s!"V {id} {hex (encodeFits f)} | {showRead (readFixed ext f)}")
     | _, _, _ => (tabs, s!"V {id} bad-input")
   | ["F", name, hx] =>
     match unhex hx with
@@ -187,7 +201,22 @@ def handle (tabs : Option Table) (ws : List String) : Option Table × String :=
     | some b =>
       match decodeFits b with
       | none => (tabs, s!"F {name} undecodable")
-      | some f => if ¬ modelledE ext f then (tabs, s!"F {name} unmodelled") else (tabs, s!"F {name} {showRead (readCore ext f)}")
+      | some f => if ¬ modelledE ext f then (tabs, s!"F {name} unmodelled") else (tabs, s!"F {name} {showRead (readFixed ext f)}")
+  | ["R", name, hx] =>
+    match unhex hx with
+    | none => (tabs, s!"R {name} bad-input")
+    | some b =>
+      match decodeFits b with
+      | none => (tabs, s!"R {name} undecodable")
+      | some f =>
+        if ¬ modelledE ext f then (tabs, s!"R {name} unmodelled") else
+        let old := match readCore ext f with | .error e => "err:" ++ errName e | .ok t => if decide t.WF then "ok:wf" else "ok:NOT-WF"
+        match readFixed ext f with
+        | .error e =>
+          let st := stateAt true (f.headD default).axes.length (stopOf e)
+          let cl := match cleanup st with | .ok o => if o = Obj.empty then "clean" else "LEAK" | .error _ => "FAULT"
+          (tabs, s!"R {name} err {errName e} {cl} old={old}")
+        | .ok t => (tabs, s!"R {name} ok {if decide t.WF then 1 else 0} old={old} | {dumpTable t}")
   | ["P"] => (tabs, "P " ++ " ".intercalate reservedPrefixes)
   | _ => (tabs, "bad-input")
 
